@@ -45,3 +45,19 @@ func stalledSubscriptions(w *World) []string {
 	sort.Strings(out)
 	return out
 }
+
+// directCounts returns cid|rid -> direct subscription count of every connection subscription.
+func directCounts(w *World) map[string]int {
+	if !w.started || w.Failed != "" || w.Deadlock != "" {
+		return nil
+	}
+	out := map[string]int{}
+	for _, c := range w.ConnSnapshot() {
+		for _, s := range c.Subs {
+			if s.State != 0 {
+				out[c.CID+"|"+s.RID] = s.Direct
+			}
+		}
+	}
+	return out
+}
